@@ -91,7 +91,7 @@ pub fn run(ctx: &Ctx) -> Report {
          non-trivial = the request matched >=1 rule and >=1 rule passed scheme+host but was rejected by a layer below (so the trace has matched and unmatched branches below the host layer); distinct by case hash",
     );
     rep.assume("sampling restricted to the deterministic points none/0/>=100; trace_request is given the raw request on even probes and the normalised one on odd probes");
-    rep.add(run_part(ctx, "routers", ctx.cases(20_000, 600_000), || router_case_strategy(RuleOpts::FULL, 10, 5, 8), check, &[]));
+    rep.add(run_part(ctx, "routers", ctx.cases(50_000, 1_500_000), || router_case_strategy(RuleOpts::FULL, 10, 5, 8), check, &[]));
     rep
 }
 
